@@ -330,7 +330,37 @@ def check(ctx: Ctx) -> None:
 
     # R14.2 reset ----------------------------------------------------------------
     ws_reset = worlds(["v", "l", "u", "v0", "l0", "u0"], [("l", "<", "u")] + DEF_OK, with_inf=True)
-    for qual in ("Element.reset_parameters", "Element.reset_parameter"):
+    # decided by interpreting the methods themselves in every world (sa/checks/_c14_interp.py); the compiled setter sequences
+    # below are the fallback for a tree the interpreter does not understand
+    from . import _c14_interp as I14
+    interp_ok = True
+    try:
+        cp_problems, cp_counts = I14.run_copies(ctx, model, ctx.tier != "quick")
+        rs_problems, rs_counts = I14.run_resets(ctx, model, ctx.tier != "quick")
+    except AnalysisError as e:
+        interp_ok = False
+        ctx.note(f"copies/resets not interpretable ({e}); decided from the compiled setter sequences instead")
+    if interp_ok:
+        for qual, n_ in rs_counts.items():
+            ctx.instance("R14.2", f"{qual}: interpreted from (v,l,u,fixed) × {n_} worlds/flags; must reach (v0,l0,u0,default flag) and keep the label")
+            transitions += n_
+            hit = [m_ for q_, m_ in rs_problems if q_ == qual]
+            fi = model.fi(BASE, "Element." + qual.split(".")[1].split("(")[0])
+            if hit:
+                ctx.violation("R14.2", f"{qual.split('(')[0]}:{'refused' if 'raises' in hit[0] else 'wrong-state'}", BASE, fi.node, f"{qual}: {hit[0]}")
+            else:
+                ctx.ok()
+        for qual, n_ in cp_counts.items():
+            ctx.instance("R14.3", f"{qual}: interpreted for a valid source (l<=v<=u, l<u, both flags, label, sub-circuits) × {n_} worlds/flags; copy must equal the source, be a new object and leave the source unchanged")
+            transitions += n_
+            fi = model.fi(BASE, qual)
+            hit = [(q_, m_) for q_, m_ in cp_problems if q_.split(":")[0] == qual]
+            for q_, m_ in hit:
+                kind = q_.split(":")[1] if ":" in q_ else ("refused" if "raises" in m_ else "wrong-state")
+                ctx.violation("R14.3", f"{qual}:{kind}", BASE, fi.node, f"{qual}: {m_}")
+            if not hit:
+                ctx.ok()
+    for qual in (() if interp_ok else ("Element.reset_parameters", "Element.reset_parameter")):
         fi = model.fi(BASE, qual)
         steps = [Step("init", "", fi.node)]  # placeholder replaced below
         seq = sequence_of(fi.node, qual)
@@ -380,7 +410,7 @@ def check(ctx: Ctx) -> None:
 
     # R14.3 copies -------------------------------------------------------------------
     ws_copy = worlds(["v", "l", "u", "v0", "l0", "u0"], SRC_OK + DEF_OK, with_inf=True)
-    for qual in ("Element.__copy__", "Container.__copy__", "Container.__deepcopy__"):
+    for qual in (() if interp_ok else ("Element.__copy__", "Container.__copy__", "Container.__deepcopy__")):
         fi = model.fi(BASE, qual)
         seq = sequence_of(fi.node, qual)
         if not seq or seq[0].method != "init":
@@ -413,7 +443,7 @@ def check(ctx: Ctx) -> None:
             else:
                 ctx.ok()
     # __deepcopy__ of Element delegates to __copy__; memo discipline for all four
-    for mod, qual in ((BASE, "Element.__deepcopy__"), (BASE, "Connection.__deepcopy__"), (BASE, "Container.__deepcopy__"),
+    for mod, qual in (((BASE, "Element.__deepcopy__"), (BASE, "Container.__deepcopy__")) if not interp_ok else ()) + ((BASE, "Connection.__deepcopy__"),
                       ("pyimpspec.circuit.circuit", "Circuit.__deepcopy__")):
         fi = model.fi(mod, qual)
         ctx.instance("R14.4", f"{qual} memo discipline")
@@ -425,8 +455,9 @@ def check(ctx: Ctx) -> None:
         else:
             ctx.violation("R14.4", f"{qual}:memo", mod, fi.node, f"{qual} must consult memo before copying and record the copy in it")
     fi = model.fi(BASE, "Element.__deepcopy__")
-    ctx.instance("R14.3", "Element.__deepcopy__ delegates to __copy__")
-    if any(isinstance(c.func, ast.Attribute) and c.func.attr == "__copy__" and dotted(c.func.value) == "self" for c in calls_in(fi.node)):
+    if interp_ok:
+        pass
+    elif ctx.instance("R14.3", "Element.__deepcopy__ delegates to __copy__") or any(isinstance(c.func, ast.Attribute) and c.func.attr == "__copy__" and dotted(c.func.value) == "self" for c in calls_in(fi.node)):
         ctx.ok()
     else:
         ctx.violation("R14.3", "Element.__deepcopy__:delegate", BASE, fi.node, "Element.__deepcopy__ no longer builds the copy with self.__copy__()")
@@ -449,9 +480,13 @@ def check(ctx: Ctx) -> None:
     # R14.5 reachable-state exploration ---------------------------------------------------
     free = ["a", "b"] if ctx.tier == "quick" else ["a", "b", "c"]
     ws5 = worlds(["v0", "l0", "u0"] + free, DEF_OK, with_inf=True)
-    copy_seq = sequence_of(model.fi(BASE, "Element.__copy__").node, "Element.__copy__")
-    ccopy_seq = sequence_of(model.fi(BASE, "Container.__copy__").node, "Container.__copy__")
-    reset_seq = [s for s in sequence_of(model.fi(BASE, "Element.reset_parameters").node, "reset") if s.method in NUMERIC_SETTERS]
+    copy_seq: List[Step] = []
+    ccopy_seq: List[Step] = []
+    reset_seq: List[Step] = []
+    if not interp_ok:
+        copy_seq = sequence_of(model.fi(BASE, "Element.__copy__").node, "Element.__copy__")
+        ccopy_seq = sequence_of(model.fi(BASE, "Container.__copy__").node, "Container.__copy__")
+        reset_seq = [s for s in sequence_of(model.fi(BASE, "Element.reset_parameters").node, "reset") if s.method in NUMERIC_SETTERS]
     args = ["v0", "l0", "u0"] + free + [NINF, PINF]
     total_states = 0
     viol: Dict[str, Tuple] = {}
@@ -466,7 +501,7 @@ def check(ctx: Ctx) -> None:
             if not w[st[1]] < w[st[2]] and "inv" not in viol:
                 viol["inv"] = (w, st)
             # copy must succeed wherever l<=v<=u
-            if w[st[1]] <= w[st[0]] <= w[st[2]]:
+            if w[st[1]] <= w[st[0]] <= w[st[2]] and not interp_ok:
                 for nm, seq in (("Element.__copy__", copy_seq), ("Container.__copy__", ccopy_seq)):
                     w2 = dict(w)
                     w2["v"], w2["l"], w2["u"] = w[st[0]], w[st[1]], w[st[2]]
@@ -484,7 +519,7 @@ def check(ctx: Ctx) -> None:
                     okr = False
                     break
                 s2 = o.state
-            if (not okr or not same(w, s2, ("v0", "l0", "u0"))) and "reset" not in viol:
+            if (not okr or not same(w, s2, ("v0", "l0", "u0"))) and "reset" not in viol and not interp_ok:
                 viol["reset"] = (w, st)
             for m, S in setters.items():
                 for x in args:
